@@ -163,6 +163,15 @@ func (s *Store) ReadGroup(ctx context.Context, req *datatypes.ReadGroupRequest) 
 		return nil, errors.New("missing read source")
 	}
 
+	// The result set panics on a group mode or aggregate it does not implement;
+	// a request (possibly from another node) must be rejected instead.
+	if req.Group != datatypes.GroupNone && req.Group != datatypes.GroupBy {
+		return nil, errors.New("unsupported group mode")
+	}
+	if agg := req.Aggregate; agg != nil && agg.Type != datatypes.AggregateTypeSum && agg.Type != datatypes.AggregateTypeCount {
+		return nil, errors.New("unsupported aggregate type")
+	}
+
 	source, err := GetReadSource(*req.ReadSource)
 	if err != nil {
 		return nil, err
